@@ -13,6 +13,7 @@ import (
 	"runtime/metrics"
 	"sort"
 	"strings"
+	"sync"
 	"sync/atomic"
 	"time"
 
@@ -572,8 +573,90 @@ func c17Worker(w *W) {
 			w.Eval(1)
 			w.Count("hostile_inputs", 1)
 		}
+	case "conc":
+		// state shared between Parse calls (pooled listeners/parsers, caches) would show when calls overlap or when a call
+		// follows a failed one: G goroutines parse well-formed expressions and small malformed inputs in random order; every
+		// well-formed result must equal its reference map
+		type wf struct {
+			text string
+			ref  map[string]string
+		}
+		var wfs []wf
+		var bad []string
+		for i := 0; i < n; i++ {
+			ast := c17gen(r, 0)
+			var sb strings.Builder
+			c17render(r, ast, &sb, r.IntN(3))
+			ref := map[string]string{}
+			c17flatten(ast, "", ref)
+			wfs = append(wfs, wf{sb.String(), ref})
+			if i%2 == 0 {
+				if h, _ := c17hostile(r, true); len(h) < 1500 {
+					bad = append(bad, h)
+				}
+			}
+		}
+		// hand-written malformed inputs that fail inside nested expressions / after partial results
+		bad = append(bad, "A{b=B{c}}", "A{b=B{c=1,d}}", "A{a=1,b=B{x=2,", "L{x=M{y=N{z}}}", "A{b=B{c=}}", "A{b=B{=1}}", "A{a=1}}", "A{a.b[0]=C{d}", "= {}", "1")
+		G := w.ArgInt("g", 8)
+		var wg sync.WaitGroup
+		var nbad atomic.Int64
+		for g := 0; g < G; g++ {
+			wg.Add(1)
+			go func(g int) {
+				defer wg.Done()
+				gr := newRng(w.Spec.Seed, uint64(w.Spec.Shard)*257+uint64(g)+1717)
+				for rep := 0; rep < 3*len(wfs) && nbad.Load() == 0; rep++ {
+					if gr.IntN(3) == 0 && len(bad) > 0 {
+						in := bad[gr.IntN(len(bad))]
+						var m map[string]string
+						var err error
+						if pv, _ := catch(func() { m, err = expr.Parse(in) }); pv != nil {
+							nbad.Add(1)
+							w.Violate("C17:panic-escapes", fmt.Sprintf("Parse panicked under concurrency on %q: %v", trunc(in, 200), pv), map[string]any{"b64": base64.StdEncoding.EncodeToString([]byte(in)), "mode": "hostile"})
+						} else if strings.TrimSpace(in) != "" && (m != nil) == (err != nil) {
+							nbad.Add(1)
+							w.Violate("C17:map-xor-error", fmt.Sprintf("concurrent Parse returned map!=nil:%v and err!=nil:%v for %q", m != nil, err != nil, trunc(in, 200)), map[string]any{"b64": base64.StdEncoding.EncodeToString([]byte(in)), "mode": "hostile"})
+						}
+						continue
+					}
+					x := wfs[gr.IntN(len(wfs))]
+					var m map[string]string
+					var err error
+					pv, _ := catch(func() { m, err = expr.Parse(x.text) })
+					same := pv == nil && err == nil && len(m) == len(x.ref)
+					if same {
+						for k, v := range x.ref {
+							if gv, ok := m[k]; !ok || gv != v {
+								same = false
+								break
+							}
+						}
+					}
+					if !same && nbad.Add(1) == 1 {
+						w.Violate("C17:map-mismatch:concurrent", fmt.Sprintf("%d goroutines parsing at once (well-formed and malformed inputs mixed): expression %q gave %v (err=%v panic=%v), expected %v", G, trunc(x.text, 300), m, err, pv, x.ref),
+							map[string]any{"b64": base64.StdEncoding.EncodeToString([]byte(x.text)), "mode": "wellformed"})
+					}
+				}
+			}(g)
+		}
+		wg.Wait()
+		w.Eval(int64(3 * len(wfs) * G))
+		w.Count("concurrent_parses", int64(3*len(wfs)*G))
+		if nbad.Load() == 0 {
+			w.Distinct(fmt.Sprintf("concurrent|G=%d|%s", G, w.Spec.Flavour))
+		}
+		w.Sample(map[string]any{"kind": "concurrent", "goroutines": G, "wellformed": len(wfs), "malformed": len(bad)})
 	case "wellformed":
 		for i := 0; i < n; i++ {
+			if i%4 == 1 {
+				// a failed parse right before a well-formed one (state carried over from a failed call)
+				if h, cls := c17hostile(r, true); len(h) < 1500 {
+					totality(h, cls)
+				} else {
+					totality([]string{"A{b=B{c}}", "A{a=1,b=B{x=2,", "L{x=M{y=N{z}}}", "A{a.b[0]=C{d}"}[i%4], "nested-incomplete")
+				}
+			}
 			ast := c17gen(r, 0)
 			var sb strings.Builder
 			c17render(r, ast, &sb, r.IntN(3))
@@ -597,6 +680,7 @@ func init() {
 		Rule: "totality: seeded hostile inputs of 0..64 KiB in 8 families (random bytes, token soup over the grammar's alphabet, 1-4 token-level mutations of valid expressions, deep unbalanced nesting, deep valid nesting, long flat inputs, one offending token repeated) plus fixed inputs at the 64 KiB bound; " +
 			"each input is journaled before the call, the call runs under a live-heap monitor (budget 4 GiB) in a child process; verdict = returns, no panic, exactly one of (map, error) non-nil (blank: both nil). " +
 			"mapping: expressions generated from the grammar (nesting <= 6, dotted/indexed paths, idents, strings over every admitted character and all 8 escapes, signed/hex integers, floats with exponents, repeated keys, optional trailing comma, three spacing modes incl. none) compared with a reference map computed from the AST. " +
+			"Every fourth well-formed case is preceded by a failed parse in the same process, and a concurrent kind has 4-16 goroutines (one worker under the race detector) parse well-formed and small malformed inputs in random order, every well-formed result compared with its reference map. " +
 			"distinct_nontrivial = distinct (hostile family, size class) pairs + distinct feature combinations of well-formed expressions whose map matched.",
 		Assumptions: []string{
 			"termination is judged by 'the call returned' inside a generously timed child (a watchdog expiry is inconclusive, never a violation); memory exhaustion is judged by a 4 GiB live-heap budget sampled every 3 ms",
@@ -622,7 +706,18 @@ func init() {
 				s.N = d.Pick(2500, 120000)
 				specs = append(specs, s)
 			}
-			d.RunWorkers(specs, 16)
+			for i := 0; i < 3; i++ {
+				s := d.NewSpec("conc", fmt.Sprintf("conc-%d", i), 40+i, 8)
+				s.N = d.Pick(600, 8000)
+				s.Args["g"] = fmt.Sprint([]int{8, 16, 4}[i])
+				if i == 2 {
+					s.Flavour = "race"
+					s.N = d.Pick(150, 2000)
+				}
+				specs = append(specs, s)
+			}
+			outs := d.RunWorkers(specs, 16)
+			d.raceVerdict(outs)
 			if !d.Quick() {
 				d.runFuzz("FuzzC17Parse", 1_500_000, "C17:fuzz")
 			}
